@@ -509,6 +509,8 @@ def run(prog, rep):
                       "SRC-1", "%s: %s" % (f.name, fn), "no destructive file operation", "%s calls %s" % (f.name, fn), where(f, c)) if \
                 fn.startswith(("os.remove", "os.rename", "os.unlink", "shutil.")) else None
     compute_before_open(prog, rep, [vc.lookup_method("write_to_file")], "ORDER-1")
+    from .rules_lints import class_level_mutables
+    class_level_mutables(prog, rep, "CLS-1", ("VersionConverter",))
     rep.assume("lxml element iteration tolerates removal of the current child (probed: the next sibling is pre-fetched)")
 
 
